@@ -1,13 +1,18 @@
 """C07 — a returned shortest path is a real, optimal, geometrically continuous route.
 
 Network.run_routing_backward under the certificate established by the forward pass (C06: predecessor TREE, labels,
-the source is the root).  Ghost GN = the chain of nodes walked, W = the weights accumulated.  The geometry operations
-are opaque in this contract (bounded stand-in only for every geometry clause).
+the source is the root).  Ghost GN = the chain of nodes walked, W = the weights accumulated, EG_ / OFF_ = the edges
+walked and the index in the accumulated geometry where each edge's polyline starts.
 Proved: None exactly when the target has no antecedent; otherwise the recorded path is the chain target -> ... ->
 source through the antecedents, reversed (so it runs from the source to the target), consecutive nodes being joined
 by the recorded antecedent edge -- an arc in the direction of travel by TREE; the weights of the edges used sum to
-the target's label (the shortest distance by C06).  Partial correctness: termination of the walk (acyclicity of the
-antecedent chain) is not proved."""
+the target's label (the shortest distance by C06).
+Geometry (Track.copy trusted deepcopy, Track.reverse verified here, `> 1` and `+` by C04's contracts): the accumulated
+track starts at the target node's position and, edge after edge, continues with that edge's polyline oriented from the
+current node to its antecedent, the junction vertex taken once (vertex K0 of walked edge J0 sits at index
+OFF_[J0] + K0, for arbitrary ghosts J0, K0; one vertex per edge vertex, junctions counted once); the result is that
+chain reversed: it starts at the source node's position and ends at the target's.
+Partial correctness: termination of the walk (acyclicity of the antecedent chain) is not proved."""
 import z3
 from pyvc.kinds import *
 from pyvc.values import *
@@ -129,7 +134,8 @@ def register(reg):
 
 
 FUNCTIONS = [NW + "run_routing_backward", T + "reverse"]
-ASSUMPTIONS = ["in this contract Track.copy / reverse / > / + are opaque (each returns some new track): every GEOMETRY clause of C07 "
-               "(polylines chained end to end, oriented along the travel, junctions not repeated, end points) is bounded only",
+ASSUMPTIONS = ["Track.copy (copy.deepcopy) is a TRUSTED contract: a new track of new observations with the same coordinates",
+               "network geometry preconditions: every edge listed under a node has that node as its source or target; every edge's polyline has "
+               ">= 2 numeric fixes, starts at its source node's position and ends at its target node's (as the network reader builds them)",
                "run_routing_backward: partial correctness (termination of the antecedent walk not proved)",
-               "Node.antecedent == '' is modelled as None"]
+               "Node.antecedent == '' is modelled as None; positions are compared as exact coordinates (A-REAL)"]
